@@ -7,16 +7,18 @@ CONSTANTS
   M = 4
   R = 2
   T = 4
-  H = 3
-  MaxNow = 6
+  H = 100
+  MaxNow = 4
   MaxNet = 2
+  MaxRxq = 2
+  MaxGwResend = 1
   DupBudget = 0
-  LossBudget = 1
+  LossBudget = 0
   InjBudget = 0
   AdvReq = FALSE
   GwFaultBudget = 0
-  MaxEpoch = 2
-  EnableHB = TRUE
+  MaxEpoch = 1
+  EnableHB = FALSE
   EnableClose = TRUE
   EnableG2C = TRUE
   Adversary = FALSE
